@@ -302,6 +302,45 @@ fn canonicalize(
     Ok(buf)
 }
 
+/// Rewrite canonical JSON as produced by [`canonicalize`] (strings escaped
+/// the way `serde_json` escapes them) into the OLPC canonical form that the
+/// in-toto reference implementations sign and hash: inside strings only `"`
+/// and `\` stay escaped, every other character is written as raw UTF-8.
+pub(crate) fn to_olpc(canonical: &str) -> std::result::Result<String, String> {
+    let mut out = String::with_capacity(canonical.len());
+    let mut chars = canonical.chars();
+    while let Some(c) = chars.next() {
+        // a backslash only ever occurs inside a string literal
+        if c != '\\' {
+            out.push(c);
+            continue;
+        }
+        let unescaped = match chars.next() {
+            Some('"') => '"',
+            Some('\\') => '\\',
+            Some('/') => '/',
+            Some('n') => '\n',
+            Some('r') => '\r',
+            Some('t') => '\t',
+            Some('b') => '\u{8}',
+            Some('f') => '\u{c}',
+            Some('u') => {
+                let hex: String = chars.by_ref().take(4).collect();
+                u32::from_str_radix(&hex, 16)
+                    .ok()
+                    .and_then(char::from_u32)
+                    .ok_or_else(|| format!("invalid escape \\u{}", hex))?
+            }
+            other => return Err(format!("invalid escape {:?}", other)),
+        };
+        if unescaped == '"' || unescaped == '\\' {
+            out.push('\\');
+        }
+        out.push(unescaped);
+    }
+    Ok(out)
+}
+
 enum Value {
     Array(Vec<Value>),
     Bool(bool),
